@@ -373,6 +373,12 @@ class Algebra(object):
                 rn, rd = _m.isqrt(k.numerator), _m.isqrt(k.denominator)
                 if rn * rn == k.numerator and rd * rd == k.denominator:
                     return (Poly.const(Fraction(rn, rd)), ONE)       # exact rational square root
+        if a[1] != ONE and self.rel:
+            try:
+                if self.reduce(a[0]) == self.reduce(a[1]):
+                    return (Poly.const(1), ONE)                          # the radicand is identically 1 modulo the declared relations
+            except ValueError:
+                pass
         if a[1] != ONE and self._nonneg(a[1]):
             # sqrt(n/d) = sqrt(n*d)/d for d > 0: keeps the relation polynomial
             inner = self.sqrt_r((self.mul(a[0], a[1]), ONE))
